@@ -20,7 +20,9 @@ EXPLANATION = (
     "Decided on GeneralSFTPFile (the handle in front of the consumer): (g) close() takes the commit decision synchronously: it returns "
     "without queueing the commit on self.async_ only when the handle was already closed, was not opened with a flag set that includes "
     "FXF_WRITE, was abandoned, or self.has_changed (sampled in close() itself) is false; therefore every request that performs or "
-    "queues self.consumer.overwrite sets has_changed = True in its own body before it returns (not in the queued callback), is refused "
+    "queues self.consumer.overwrite / self.consumer.set_current_size (writeChunk, setAttrs with a size) sets has_changed = True in its "
+    "own body before it returns (not in the queued callback) - except on paths that passed an edge fact over never re-bound locals of "
+    "the request whose negation guards every path to that call inside the queued callback (setAttrs without a size) -, is refused "
     "on handles for which close() skips the commit, its write callback is really queued (not defined and dropped / errback only), and "
     "has_changed is never re-assigned to anything but True outside __init__; (h) the commit reads the consumer's temp file (get_file) "
     "only inside callbacks of self.consumer.when_done(), chains such an upload on every way through, and returns that Deferred (so that "
@@ -30,9 +32,7 @@ EXPLANATION = (
     "(a milestone that is never released, an overwrite region that is not merged / a milestone not extended over it, a download "
     "that is not declared done after a truncation only delay reads); the `size < downloaded` truncate clause of set_current_size "
     "(value-level: no reachable state was found in which it alone matters); whether read() at offset == current_size raises "
-    "EOFError or returns b''; behaviour of overwrite()/read() on a closed consumer; GeneralSFTPFile.setAttrs(size) queues "
-    "consumer.set_current_size without marking the handle changed (a size change alone is not committed at close - behaviour of the "
-    "unchanged tree, reported separately, not enforced by (g)); which uploader the commit picks (mutable / immutable) and the result "
+    "EOFError or returns b''; behaviour of overwrite()/read() on a closed consumer; which uploader the commit picks (mutable / immutable) and the result "
     "of a failed download; requests arriving after close().")
 TECHNIQUE = "static analysis: CFG x monitor path rules with flow-sensitive normal forms (monotone-update, must-precede, pairing), Deferred-chain registration model"
 
@@ -102,8 +102,7 @@ def _f_call(n, name=None):
 # ---------------------------------------------------------------- GeneralSFTPFile (file handle in front of the consumer)
 GCLS = "frontends.sftpd:GeneralSFTPFile"
 FLAG = "self.has_changed"
-# calls on the consumer that change the file's contents; only those of them that the unchanged tree accounts for in
-# has_changed are listed (see EXPLANATION for set_current_size)
+# calls on the consumer that change the file's contents
 QUEUED_MUTATORS = ("self.consumer.overwrite", "self.consumer.set_current_size")
 _REG_KINDS = {"addCallback": "cb", "addBoth": "both", "addCallbacks": "pair"}
 
@@ -864,7 +863,7 @@ def run(ctx: Context):
     # -- (g) GeneralSFTPFile: the synchronous commit decision sees every accepted write ------
     with ctx.rule("C39.8", "R1/E7", "GeneralSFTPFile: close() skips the commit only for a handle that was already closed / not opened "
                   "for writing / abandoned / unchanged; has_changed is sampled synchronously by close(), so every request that "
-                  "performs or queues a consumer overwrite marks the handle changed before it returns, it is accepted only on "
+                  "performs or queues a contents-changing consumer call (overwrite, set_current_size) marks the handle changed before it returns, it is accepted only on "
                   "handles close() commits, and has_changed is never reset", expected=6) as r:
         G = idx.cls(GCLS)
         CLO = idx.func(GCLS + ".close")
@@ -974,7 +973,7 @@ def run(ctx: Context):
             mnm = FlowNorm(m)
             for (p, how, reg) in points:
                 n_points += 1
-                r.site(m, p.ast, "%s consumer overwrite" % how)
+                r.site(m, p.ast, "%s a contents-changing consumer call" % how)
                 if own_loads:
                     # a path of the request on which the queued callback cannot reach its mutator needs no mark: it passed an
                     # edge fact over locals of the request (not re-bound later, the callback sees the same binding) whose
@@ -1005,9 +1004,9 @@ def run(ctx: Context):
                     for (nid, st) in sorted(vis2, key=lambda z: (z[0], z[1][0], z[1][1], sorted(map(repr, z[1][2])))):
                         if mg.nodes[nid].kind == "exit" and st[0] and not st[1] and not st[2]:
                             w = witness(mg, par2, (nid, st))
-                            r.violation(m, m.loc(p.ast), "%s() %s a consumer overwrite but can return without having set "
+                            r.violation(m, m.loc(p.ast), "%s() %s a contents-changing consumer call (overwrite / set_current_size) but can return without having set "
                                         "has_changed = True itself: close() samples has_changed at the close call, so a close() "
-                                        "that arrives before the queued write has run skips the commit and the write is lost "
+                                        "that arrives before the queued change has run skips the commit and the change is lost "
                                         "(path: %s)" % (m.name, how, w.brief()), w)
                             break
                 for Mc in sorted(masks, key=sorted):
@@ -1018,7 +1017,7 @@ def run(ctx: Context):
                         mm = _flag_mask(f[1])
                         return bool(mm) and mm <= _Mc
                     for (t, w) in find_path_avoiding(mg, lambda x, _p=p: x is _p, gate_edge=writable, skip_exc_edges=True):
-                        r.violation(m, m.loc(p.ast), "%s() %s a consumer overwrite on a handle for which close() skips the commit "
+                        r.violation(m, m.loc(p.ast), "%s() %s a contents-changing consumer call on a handle for which close() skips the commit "
                                     "(close() does not commit when none of %s is set, this write is not refused then)"
                                     % (m.name, how, "|".join(sorted(Mc))), w)
         if not n_points:
